@@ -164,10 +164,21 @@ pub fn run(ctx: &Ctx) {
     let t = ctx.tier;
     let k = t.pick(4usize, 12usize);
     // depth-stress first: a crash here is attributed by the driver through the progress hint
+    let probe_depth = ctx.param_u64("depth", 0);
+    let probe_fam = ctx.param_u64("fam", 0);
     ctx.run_sub("depth-stress", Plan::enumerate(16, 0.1), |_rng, case| {
-        let depths = [100usize, 1_000, 5_000, 10_000, 20_000, 40_000, 80_000, 160_000];
-        let d = depths[(case.idx / 2) as usize % depths.len()];
-        let fam = case.idx % 2;
+        // depths keep clear of the overflow thresholds measured on the pinned tree with the pinned 8 MiB stack
+        // (deep-sum-unify: between 25000 and 30000; deep-chain: between 120000 and 140000), so that the verdict
+        // does not depend on a few kilobytes of stack more or less
+        let table: [(u64, usize); 16] = [
+            (0, 100), (0, 1_000), (0, 5_000), (0, 10_000), (0, 20_000), (0, 40_000), (0, 80_000), (0, 160_000),
+            (1, 100), (1, 1_000), (1, 10_000), (1, 40_000), (1, 80_000), (1, 400_000), (1, 1_000_000), (1, 2_000),
+        ];
+        let (mut fam, mut d) = table[case.idx as usize % table.len()];
+        if probe_depth > 0 {
+            d = probe_depth as usize;
+            fam = probe_fam;
+        }
         case.hint(&format!("family={} depth={}", ["deep-sum-unify", "deep-chain"][fam as usize], d));
         let dag = depth_family(fam, d);
         case.desc = format!("family {} depth {}", ["deep-sum-unify", "deep-chain"][fam as usize], d);
